@@ -15,7 +15,13 @@ Leg C: oracle, in Python, on the implementation's call log only: per routed reco
        `denote` (computed here, independently of Coq) selects; each write is one whole record: starts
        with the record's first token, names level / spans root->leaf with fields / event fields in
        order, exactly one trailing newline (single line for full/compact/json), carries its own
-       sequence marker and nobody else's."""
+       sequence marker and nobody else's.
+Sink faults (every leg): recording writer instances answer their write/flush calls from a scripted fault plan
+       (Err, Interrupted, Ok(0), partial accepts, panic) -- every subset of a record's sinks failing.  The model
+       (WriterModel.tee_apply / sink_write_all, BufferModel's unw input) says which sinks are attempted and with
+       which bytes; the oracle demands that EVERY denoted sink is offered the whole record whichever of the
+       others fail (only a panicking sink cuts the walk short), that a sink accepting a part is re-offered exactly
+       the rest, and that the record after a failed write is whole and unprefixed."""
 import copy
 import json
 import os
@@ -97,9 +103,71 @@ def denote(w, m):
     raise ValueError(k)
 
 
+def sink_kind(case, i):
+    k = case.get("sink_kinds") or []
+    return k[i] if i < len(k) else "rec"
+
+
+def logs_make(case, i):
+    """does the leaf for sink i call the recording sink's factory (rec: with the metadata; fn: without)?"""
+    return sink_kind(case, i) in ("rec", "fn")
+
+
+def sim_calls(script, method, n):
+    """what ONE io::Write method call makes of a recording writer whose script is `script`, given n bytes:
+    ([(offset of the offered suffix, response tag)], 'ok'|'err'|'unwind').  write_all = std's default loop."""
+    script = list(script or [])
+    if method == "flush":
+        r = script[0] if script else None
+        tag = "ok" if (r is None or isinstance(r, dict)) else r
+        return [(None, tag)], {"ok": "ok", "int": "err", "err": "err", "panic": "unwind"}[tag]
+    if method in ("write", "write_vectored"):
+        r = script[0] if script else None
+        if r is None:
+            return [(0, "ok")], "ok"
+        if isinstance(r, dict):
+            k = r["ok"]
+            return [(0, "zero" if k == 0 else ("ok" if k >= n else "part"))], "ok"
+        return [(0, r)], ("unwind" if r == "panic" else "err")
+    calls = []
+    off = 0
+    i = 0
+    if n == 0:
+        return calls, "ok"
+    while True:
+        r = script[i] if i < len(script) else None
+        i += 1
+        if r is None:
+            calls.append((off, "ok"))
+            return calls, "ok"
+        if r == "int":
+            calls.append((off, "int"))
+            continue
+        if r == "err":
+            calls.append((off, "err"))
+            return calls, "err"
+        if r == "panic":
+            calls.append((off, "panic"))
+            return calls, "unwind"
+        k = r["ok"]
+        if k == 0:
+            calls.append((off, "zero"))
+            return calls, "err"
+        if k >= n - off:
+            calls.append((off, "ok"))
+            return calls, "ok"
+        calls.append((off, "part"))
+        off += k
+
+
+RCODE = {"ok": 0, "part": 3, "int": 4, "err": 5, "panic": 6, "zero": 7}
+
+
 def wexp_stats(w, acc=None, depth=0):
     acc = acc if acc is not None else {"depth": 0}
     acc[w["k"]] = acc.get(w["k"], 0) + 1
+    if w["k"] == "sink" and w["i"] == 0:
+        acc["sink0"] = 1
     acc["depth"] = max(acc["depth"], depth)
     for c in ("w", "a", "b"):
         if c in w:
@@ -288,7 +356,7 @@ def thread_emissions(case, t, counter):
             sc, _ = scope_of(op.get("parent"))
             out.append(build_event(case, t, opi, op["cs"], op["vals"], sc, True, counter, op.get("parent") is not None, scope_of(None)[0]))
         elif o == "direct":
-            out.append(("direct", op["text"]))
+            out.append(("direct", op["text"], op.get("method", "write_all"), opi))
     while stack:
         close_top(len(prog))
     return out
@@ -502,8 +570,10 @@ def gen_value(rng, name):
         return {"u": rng.choice([0, 3, 9999, 18446744073709551615])}
     if k < 0.5:
         return {"b": rng.random() < 0.5}
-    if k < 0.75:
+    if k < 0.745:
         return {"s": rng.choice(STRS)}
+    if k < 0.75:
+        return {"s": "long " + "0123456789abcdef" * rng.choice([40, 300, 600])}     # one record of several KB is still one write
     if k < 0.82:
         return {"f": rng.choice(FLOATS)}
     if k < 0.94:
@@ -531,6 +601,8 @@ class CaseBuilder:
         fields = ["seq"] + names
         if rng.random() < 0.6:
             fields.insert(rng.choice([1, 1, 1, len(fields)]), "message")
+        if rng.random() < 0.06:          # no sequence marker; sometimes no field at all
+            fields = [f for f in fields if f != "seq"] if rng.random() < 0.6 else []
         loc = rng.random() < 0.6
         return self.cs("event", "event e%d" % rng.randint(0, 3), rng.choice(TARGETS), rng.randint(1, 5), fields,
                        rng.choice(["src/main.rs", "src/db/mod.rs"]) if loc else None, rng.randint(1, 9999) if loc else None)
@@ -653,7 +725,7 @@ def gen_case(rng, cid, kind):
                 seqc[0] += 1
                 prog.append({"op": "event", "cs": c, "vals": [{"i": 100000 * (t + 1) + seqc[0]}, {"d": "routed"}], "parent": None})
                 if rng.random() < 0.25:
-                    prog.append({"op": "direct", "text": "DIRECT %d" % rng.randint(0, 99)})
+                    prog.append({"op": "direct", "text": "DIRECT %d" % rng.randint(0, 99), "method": rng.choice(["write_all", "write_all", "write", "flush", "write_vectored", "write_fmt"])})
                 if rng.random() < 0.25:
                     sc = cb.span_cs()
                     prog.append({"op": "enter", "cs": sc, "vals": [gen_value(rng, n) for n in cb.callsites[sc]["fields"]], "parent": None})
@@ -670,6 +742,246 @@ def gen_global_case(rng, cid):
     c["kind"] = "global"
     c["global"] = True
     return c
+
+
+# ------------------------------------------------------------------------------------------------
+# sink faults: scripts, plans
+
+def gen_script(rng, partial, panic):
+    """one recording writer instance's answers to its successive write calls"""
+    pool = [["err"], [{"ok": 0}], ["int"], ["int", "int"], ["int", "err"]]
+    if partial:
+        k = rng.randint(1, 12)
+        pool += [[{"ok": k}], [{"ok": k}, {"ok": rng.randint(1, 9)}], [{"ok": k}, "err"], [{"ok": k}, "int", {"ok": rng.randint(1, 30)}],
+                 [{"ok": 1}, {"ok": 1}, {"ok": 1}], [{"ok": k}, {"ok": 0}], ["int", {"ok": k}]]
+    if panic:
+        pool += [["panic"], ["int", "panic"]] + ([[{"ok": rng.randint(1, 9)}, "panic"]] if partial else [])
+    return copy.deepcopy(rng.choice(pool))
+
+
+def plan_key(e):
+    return ("d%d:%d" % (e[4], e[3])) if isinstance(e, tuple) else str(e.uid)
+
+
+def routed(case, e):
+    """sinks (documented routing) of the write the emission / direct op e performs; None: it performs none"""
+    if isinstance(e, tuple):
+        return denote(case["writer"], None)
+    if e.status == "panic" or (e.status == "err" and not case["opts"].get("lie")):
+        return None
+    return denote(case["writer"], e.meta)
+
+
+def case_items(case):
+    """per thread: what reaches the layer (Em objects) and the direct ops, in program order; direct tuples get the thread appended"""
+    counter = [0]
+    res = []
+    for t in range(len(case["threads"])):
+        items = thread_emissions(case, t, counter)
+        res.append([it + (t,) if isinstance(it, tuple) else it for it in items])
+    return res
+
+
+def assign_faults(rng, case, p_record, panic=False, chooser=None):
+    """Give some of the case's writes a fault plan.  case["plans"][key] = one script per position of the write's
+    denoted sinks; case["faults"][t][k] = the script of the k-th recording writer instance made on thread t (what the
+    harness needs).  chooser(e, D) may fix the plan of a write (exhaustive sweeps); otherwise: with probability p_record
+    a uniformly random subset of the write's recording sinks gets a random script."""
+    fmt = case["format"]
+    o = case["opts"]
+    plans = {}
+    faults = []
+    has_mutex = any(sink_kind(case, i).startswith("mutex") for i in range(case["nsinks"]))
+    for t, items in enumerate(case_items(case)):
+        mk = 0
+        ft = {}
+        for e in completion_order(items):
+            D = routed(case, e)
+            if D is None:
+                continue
+            recs = [j for j, sk in enumerate(D) if logs_make(case, sk)]
+            scripts = None
+            if chooser is not None:
+                scripts = chooser(e, D)
+            elif recs and rng.random() < p_record:
+                is_tuple = isinstance(e, tuple)
+                # partial accepts need the implementation's bytes to be the model's bytes (nothing masked)
+                partial = (fmt in ("full", "compact") and not o.get("ansi") and (is_tuple or e.status == "ok")
+                           and not (not is_tuple and e.kind == "close" and o.get("timer")))
+                if is_tuple:
+                    partial = e[2] != "flush"
+                pn = panic and not has_mutex and (is_tuple or e.kind == "event")
+                mask = rng.randrange(1, 2 ** len(recs))
+                scripts = [[] for _ in D]
+                for b, j in enumerate(recs):
+                    if mask >> b & 1:
+                        scripts[j] = gen_script(rng, partial, pn)
+            if scripts and any(scripts):
+                plans[plan_key(e)] = scripts
+                for b, j in enumerate(recs):
+                    if scripts[j]:
+                        ft[str(mk + b)] = scripts[j]
+            mk += len(recs)
+        faults.append(ft)
+    case["plans"] = plans
+    case["faults"] = faults
+    return case
+
+
+def gen_fault_case(rng, cid):
+    """histories over tee-rich writer expressions with failing / partially accepting / panicking sinks"""
+    kind = rng.choice(["content", "abn", "route", "abn"])
+    c = gen_case(rng, cid, kind)
+    c["kind"] = "fault"
+    c["opts"]["ansi"] = False
+    ns = c["nsinks"] = rng.randint(2, 4)
+    r = rng.random()
+    if r < 0.55:       # force tees near the root: the interesting shapes for faults
+        c["writer"] = {"k": "tee", "a": gen_wexp(rng, rng.choice([0, 1, 2]), ns), "b": gen_wexp(rng, rng.choice([0, 1, 2, 3]), ns)}
+        if rng.random() < 0.3:
+            c["writer"] = {"k": rng.choice(["box", "box", "filter"]), "p": {"p": "true"}, "w": c["writer"]}
+    else:
+        c["writer"] = gen_wexp(rng, rng.choice([2, 3, 4]), ns)
+    c["sink_kinds"] = [rng.choice(["rec", "rec", "rec", "fn"]) for _ in range(ns)]
+    return assign_faults(rng, c, 0.45, panic=rng.random() < 0.5)
+
+
+TEE_SHAPES = [
+    lambda S: {"k": "tee", "a": S(0), "b": S(1)},
+    lambda S: {"k": "tee", "a": {"k": "tee", "a": S(0), "b": S(1)}, "b": S(2)},
+    lambda S: {"k": "tee", "a": S(0), "b": {"k": "tee", "a": S(1), "b": S(2)}},
+    lambda S: {"k": "tee", "a": {"k": "box", "w": {"k": "tee", "a": S(0), "b": S(1)}}, "b": {"k": "tee", "a": S(2), "b": S(3)}},
+    lambda S: {"k": "tee", "a": {"k": "max", "l": 5, "w": S(0)}, "b": {"k": "filter", "p": {"p": "true"}, "w": S(1)}},
+    lambda S: {"k": "orelse", "a": {"k": "max", "l": 1, "w": S(0)}, "b": {"k": "tee", "a": S(1), "b": S(2)}},
+    lambda S: {"k": "tee", "a": S(0), "b": S(0)},
+    lambda S: {"k": "tee", "a": {"k": "filter", "p": {"p": "is_event"}, "w": {"k": "tee", "a": S(0), "b": S(1)}}, "b": {"k": "min", "l": 2, "w": S(2)}},
+    lambda S: {"k": "tee", "a": {"k": "orelse", "a": {"k": "filter", "p": {"p": "false"}, "w": S(0)}, "b": S(1)}, "b": S(2)},
+]
+FAULT_KINDS = [["err"], [{"ok": 0}], ["int", "err"], [{"ok": 3}, "err"], ["panic"], [{"ok": 2}, {"ok": 5}], ["int"]]
+
+
+def gen_teefault_cases(rng):
+    """EXHAUSTIVE over the failing subsets: for each tee shape, one record per subset of its denoted sinks failing
+    (each followed by a healthy record), and one direct call per io::Write method per subset"""
+    cases = []
+    for si, shape in enumerate(TEE_SHAPES):
+        fmt = ["full", "compact", "json", "pretty"][(si + rng.randrange(4)) % 4]
+        w = shape(lambda i: {"k": "sink", "i": i})
+        cb = CaseBuilder(rng)
+        cs = cb.cs("event", "event e0", "app", 3, ["seq", "message"])
+        meta = cs_meta(cb.callsites[cs])
+        D = denote(w, meta)
+        D0 = denote(w, None)
+        prog = []
+        seq = 0
+        sel = {}
+        for mask in range(2 ** len(D)):
+            for _ in range(2):
+                seq += 1
+                prog.append({"op": "event", "cs": cs, "vals": [{"i": 100000 + seq}, {"d": "tee"}], "parent": None})
+            sel[len(prog) - 2] = mask
+        methods = ["write_all", "write", "flush", "write_vectored", "write_fmt"]
+        dsel = {}
+        for mask in range(2 ** len(D0)):
+            m = methods[(mask + si) % len(methods)]
+            prog.append({"op": "direct", "text": "DIRECT %d" % mask, "method": m})
+            dsel[len(prog) - 1] = mask
+        fk = FAULT_KINDS[si % len(FAULT_KINDS):] + FAULT_KINDS[:si % len(FAULT_KINDS)]
+        partial_ok = fmt in ("full", "compact")
+        c = {"id": 0, "kind": "teefault", "format": fmt, "opts": {"ansi": False, "target": True, "level": True, "lie": si % 2 == 0, "span_events": []},
+             "nsinks": 4, "sink_kinds": ["rec"] * 4, "writer": w, "callsites": cb.callsites, "threads": [prog], "global": False}
+
+        def chooser(e, Dx, sel=sel, dsel=dsel, fk=fk, partial_ok=partial_ok):
+            if isinstance(e, tuple):
+                mask = dsel.get(e[3], 0)
+                meth = e[2]
+            else:
+                mask = sel.get(e.op, 0)
+                meth = "write_all"
+            out = []
+            for j in range(len(Dx)):
+                if mask >> j & 1:
+                    sc = copy.deepcopy(fk[(j + mask) % len(fk)])
+                    if (not partial_ok or meth == "flush") and any(isinstance(r, dict) and r["ok"] > 0 for r in sc):
+                        sc = ["err"]
+                    out.append(sc)
+                else:
+                    out.append([])
+            return out
+        cases.append(assign_faults(rng, c, 0.0, chooser=chooser))
+    return cases
+
+
+def gen_lifecycle_cases(rng):
+    """EVERY subset of {new, enter, exit, close} x timer on/off (32 configurations), formats rotating"""
+    cases = []
+    names = ["new", "enter", "exit", "close"]
+    rot = rng.randrange(4)
+    for mask in range(16):
+        for timer in (False, True):
+            c = gen_case(rng, 0, "content")
+            c["kind"] = "lifecycle"
+            c["format"] = ["full", "compact", "pretty", "json"][(mask + rot + (2 if timer else 0)) % 4]
+            c["opts"]["span_events"] = [n for b, n in enumerate(names) if mask >> b & 1]
+            c["opts"]["timer"] = timer
+            # make sure spans are entered, recorded into and exited
+            cb = CaseBuilder(rng)
+            cb.callsites = c["callsites"]
+            cb.index = {json.dumps([x["kind"], x["name"], x["target"], x["level"], x["fields"], x["file"], x["line"]]): i for i, x in enumerate(cb.callsites)}
+            sc = cb.span_cs()
+            sc2 = cb.span_cs()
+            ev = cb.cs("event", "event e0", "app", 3, ["seq", "message"])
+            extra = [{"op": "enter", "cs": sc, "vals": [gen_value(rng, n) for n in cb.callsites[sc]["fields"]], "parent": None},
+                     {"op": "event", "cs": ev, "vals": [{"i": 190001}, {"d": "inside"}], "parent": None},
+                     {"op": "enter", "cs": sc2, "vals": [gen_value(rng, n) for n in cb.callsites[sc2]["fields"]], "parent": None},
+                     {"op": "exit"}, {"op": "exit"}]
+            c["threads"][0] = extra + c["threads"][0]
+            cases.append(c)
+    return cases
+
+
+def add_sink_kinds(rng, c):
+    """closure-backed and Mutex-backed leaves.  A Mutex leaf: at most once in the expression (a second lock of the same
+    Mutex inside one Tee would deadlock -- user error), no direct ops (they use a second copy of the writer)."""
+    ns = c["nsinks"]
+    kinds = ["rec"] * ns
+    occ = {}
+
+    def walk(w):
+        if w["k"] == "sink":
+            occ[w["i"]] = occ.get(w["i"], 0) + 1
+        for k in ("w", "a", "b"):
+            if k in w:
+                walk(w[k])
+    walk(c["writer"])
+    has_direct = any(op["op"] == "direct" for th in c["threads"] for op in th)
+    for i in range(ns):
+        r = rng.random()
+        if r < 0.15:
+            kinds[i] = "fn"
+        elif r < 0.55 and occ.get(i, 0) == 1 and not has_direct:
+            kinds[i] = "mutex:%d" % rng.choice([0, 0, 1, 3, 7, 16])
+    c["sink_kinds"] = kinds
+    return c
+
+
+def gen_testwriter_twins(rng):
+    """the real TestWriter as one sink (it prints to stdout): the same case is run twice, once with a recording sink in
+    its place; what TestWriter printed must be, line for line, what the recording twin was handed"""
+    c = gen_case(rng, 0, rng.choice(["content", "route", "conc"]))
+    c["opts"].update({"tid": False, "ansi": False})
+    if c["opts"].get("timer") and "close" in c["opts"].get("span_events", []):
+        c["opts"]["timer"] = False
+    for th in c["threads"]:
+        th[:] = [op for op in th if op["op"] != "direct"]
+    if not wexp_stats(c["writer"]).get("sink0") or rng.random() < 0.3:
+        c["writer"] = {"k": "tee", "a": {"k": "sink", "i": 0}, "b": c["writer"]}
+    c["kind"] = "testwriter-rec"
+    c["sink_kinds"] = ["rec"] * c["nsinks"]
+    twin = copy.deepcopy(c)
+    twin["kind"] = "testwriter"
+    twin["sink_kinds"][0] = "test"
+    return c, twin
 
 
 # ------------------------------------------------------------------------------------------------
@@ -762,6 +1074,43 @@ def coq_emission(case, cs_idx, vals, scope, ctx_scope=None):
         else:
             term = "(FErr %s %s)" % (B(it[1]), B(it[2]))
     return "(Em %s %s %s)" % (coq_emeta(cs), coq_scope(scope), term)
+
+
+def coq_script(sc):
+    out = []
+    for r in sc:
+        if isinstance(r, dict):
+            out.append("RsAccept %d" % r["ok"])
+        else:
+            out.append({"int": "RsInterrupted", "err": "RsFail", "panic": "RsPanic"}[r])
+    return "[" + "; ".join(out) + "]"
+
+
+def coq_plan(scripts):
+    return "[" + "; ".join(coq_script(x) for x in (scripts or [])) + "]"
+
+
+def coq_plans(case, emissions):
+    """the fault plans of a segment's emissions, in completion order (trailing healthy ones dropped)"""
+    pl = [case.get("plans", {}).get(plan_key(e)) for e in emissions]
+    while pl and not pl[-1]:
+        pl.pop()
+    return "[" + "; ".join(coq_plan(x) for x in pl) + "]"
+
+
+COQ_METHOD = {"write_all": "MWriteAll", "write_fmt": "MWriteAll", "write": "MWrite", "write_vectored": "MWrite", "flush": "MFlush"}
+
+
+def segments(items):
+    """split a thread's items at the direct ops: [('ems', [Em..]) | ('direct', tuple)]"""
+    segs = [("ems", [])]
+    for it in items:
+        if isinstance(it, tuple):
+            segs.append(("direct", it))
+            segs.append(("ems", []))
+        else:
+            segs[-1][1].append(it)
+    return segs
 
 
 def model_ops(case, t):
@@ -858,6 +1207,22 @@ def load_corpus():
     return cases
 
 
+def parse_harness_output(out, obs):
+    """harness lines start with '@@C13 '; whatever else a case printed to stdout (TestWriter leaves) is its 'stdout'"""
+    parts = out.split("\n@@C13 ")
+    pending = parts[0]
+    for piece in parts[1:]:
+        line, _, rest = piece.partition("\n")
+        try:
+            d = json.loads(line)
+        except ValueError:
+            pending = rest
+            continue
+        d["stdout"] = pending
+        obs[d["id"]] = d
+        pending = rest
+
+
 def run_harness(ctx, rep, path, cases):
     """returns {id: observation}"""
     obs = {}
@@ -866,34 +1231,57 @@ def run_harness(ctx, rep, path, cases):
         fn = os.path.join(ctx.work, "cases.jsonl")
         with open(fn, "w") as f:
             for c in batch:
-                f.write(json.dumps(c) + "\n")
+                f.write(json.dumps({k: v for k, v in c.items() if k != "plans"}) + "\n")
         rc, out = run_bin(path, [fn], timeout=1200)
         if rc != 0:
             rep.tie("run:h_fmt", False, "rc=%d %s" % (rc, vlib.last_error(out)))
-        for line in out.splitlines():
-            if line.startswith("{"):
-                try:
-                    d = json.loads(line)
-                    obs[d["id"]] = d
-                except ValueError:
-                    pass
+        parse_harness_output(out, obs)
     for c in cases:
         if c.get("global"):     # the global default can be set once per process
-            rc, out = run_bin(path, [], input=json.dumps(c) + "\n", timeout=120)
-            for line in out.splitlines():
-                if line.startswith("{"):
-                    try:
-                        d = json.loads(line)
-                        obs[d["id"]] = d
-                    except ValueError:
-                        pass
+            rc, out = run_bin(path, [], input=json.dumps({k: v for k, v in c.items() if k != "plans"}) + "\n", timeout=120)
+            parse_harness_output(out, obs)
     return obs
+
+
+def normalise_calls(case, calls):
+    """one thread's calls with the chunked writes of a Mutex leaf merged into the single whole write they are (the oracle
+    checks the chunking itself: successive suffixes, nobody else's bytes in between)"""
+    res = []
+    pending = {}
+    for c in calls:
+        if c["k"] == "write" and c.get("mutex"):
+            s_ = c["s"]
+            if s_ not in pending:
+                pending[s_] = c["hex"]
+            if c["r"] == "ok":
+                d = dict(c)
+                d["hex"] = pending.pop(s_)
+                res.append(d)
+            continue
+        res.append(c)
+    return res
+
+
+def normalise_model(case, mv):
+    """what the leaf kinds hide from the log: a TestWriter leaf logs nothing, a Mutex leaf has no factory call, a
+    closure leaf's factory is asked without metadata (the default make_writer_for)"""
+    res = []
+    for x in mv:
+        k = sink_kind(case, x[0])
+        if k == "test":
+            continue
+        if k.startswith("mutex") and x[1] in (0, 1):
+            continue
+        if k == "fn" and x[1] == 1:
+            x = (x[0], 0, 0, 0)
+        res.append(tuple(x))
+    return res
 
 
 def encode_observed(case, calls):
     """the implementation's calls of one thread in the model's encoding (full/compact: masked bytes hashed)"""
     res = []
-    for c in calls:
+    for c in normalise_calls(case, calls):
         if c["k"] == "make":
             if c["meta"] is None:
                 res.append((c["s"], 0, 0, 0))
@@ -902,41 +1290,219 @@ def encode_observed(case, calls):
                 res.append((c["s"], 1, 2 * m["level"] + (1 if m["span"] else 0), enc_meta(m)))
         elif c["k"] == "write":
             b = bytes.fromhex(c["hex"])
-            txt = b.decode("utf-8", "replace")
+            txt = b.decode("utf-8", "surrogateescape")     # a partially accepted record may be re-offered from the middle of a character
             txt = mask(txt)
             txt = ERRLINE_RE.sub(lambda m: m.group(1) + "?\n", txt)
-            bb = txt.encode("utf-8")
-            res.append((c["s"], 2, len(bb), py_hash(bb)))
+            bb = txt.encode("utf-8", "surrogateescape")
+            res.append((c["s"], 2 + RCODE[c.get("r", "ok")], len(bb), py_hash(bb)))
         else:
-            res.append((c["s"], 3, 0, 0))
+            res.append((c["s"], 3, RCODE[c.get("r", "ok")], 0))
     return res
+
+
+# ------------------------------------------------------------------------------------------------
+# oracle on one thread's call log
+
+def check_thread(rep, c, case_min, t, items, calls, f9_counter):
+    """The implementation's calls on the recording sinks, thread t, against the property.  Returns the (thread, op)
+    pairs whose processing must have unwound into the harness's catch_unwind."""
+    pos = 0
+    aborts = []
+    unwinds = []
+    lie = c["opts"].get("lie")
+
+    def viol(what, e, **extra):
+        d = {"case": case_min, "thread": t}
+        if e is not None and not isinstance(e, tuple):
+            d["emission"] = {"op": e.op, "kind": e.kind, "marker": e.marker}
+        elif e is not None:
+            d["direct_op"] = e[3]
+        d.update(extra)
+        rep.violation(what, d)
+
+    for e in completion_order(items):
+        is_direct = isinstance(e, tuple)
+        if not is_direct:
+            rep.count("emission:" + e.kind + ("" if e.status == "ok" else "-" + e.status) + ("" if e.top else "-nested"))
+        D = routed(c, e)
+        if D is None:
+            if e.status == "panic":
+                if e.top:
+                    aborts.append(e)
+                    unwinds.append([t, e.op])
+            elif e.top:
+                aborts = []               # the non-unwinding path clears
+            continue
+        method = e[2] if is_direct else "write_all"
+        scripts = (c.get("plans") or {}).get(plan_key(e)) or [[] for _ in D]
+        if any(scripts):
+            rep.count("write-with-faults")
+        want_meta = None if is_direct else e.meta
+        # ---- one factory call per denoted sink, with this event's metadata
+        mk = [sk for sk in D if logs_make(c, sk)]
+        seg = calls[pos:pos + len(mk)]
+        shape = [(x["k"], x["s"]) for x in seg]
+        if shape != [("make", sk) for sk in mk]:
+            viol("one factory call and one write per routed record: factory calls are %s, the documented routing selects sinks %s%s"
+                 % (shape, D, "" if len(mk) == len(D) else " (factories observable on %s)" % mk), e)
+            return unwinds
+        for x in seg:
+            wm = want_meta if sink_kind(c, x["s"]) == "rec" else None
+            if x["meta"] != wm:
+                viol("make_writer_for received %s, the event's metadata is %s" % (x["meta"], wm), e)
+                return unwinds
+        pos += len(mk)
+        inst = iter([x["w"] for x in seg])
+        # ---- then the write on EVERY denoted sink, in order, whichever of them fail
+        record = e[1].encode() if is_direct else None
+        unwound = False
+        for j, sk in enumerate(D):
+            kind = sink_kind(c, sk)
+            if kind == "test":
+                continue
+            if kind.startswith("mutex"):
+                first = True
+                while True:
+                    x = calls[pos] if pos < len(calls) else None
+                    if x is None or x["s"] != sk or x["k"] != ("flush" if method == "flush" else "write"):
+                        viol("sink %d (Mutex leaf) is denoted for this record (documented routing %s) but %s: next call is %s"
+                             % (sk, D, "it was never offered it" if first else "it accepted a part and was not re-offered the rest", None if x is None else (x["k"], x["s"])), e)
+                        return unwinds
+                    pos += 1
+                    if method == "flush":
+                        break
+                    b = bytes.fromhex(x["hex"])
+                    if record is None:
+                        record = b
+                    if first and b != record:
+                        viol("sink %d was not offered the whole record first" % sk, e, write=b.decode("utf-8", "replace")[:300])
+                        return unwinds
+                    if not first and b != rest:
+                        viol("sink %d accepted a part of the record and was not re-offered exactly the rest" % sk, e)
+                        return unwinds
+                    first = False
+                    if x["r"] != "part" or method != "write_all" and method != "write_fmt":
+                        break
+                    chunk = int(kind.split(":")[1])
+                    rest = b[chunk:]
+                continue
+            wid = next(inst)
+            sc = scripts[j] if j < len(scripts) else []
+            x = calls[pos] if pos < len(calls) else None
+            if record is None:
+                if x is None or x["k"] != "write" or x["s"] != sk:
+                    viol("sink %d (position %d of the documented routing %s, fault plan %s) was never offered the record: next call is %s"
+                         % (sk, j, D, scripts, None if x is None else (x["k"], x["s"])), e)
+                    return unwinds
+                record = bytes.fromhex(x["hex"])
+            exp, res = sim_calls(sc, method, len(record))
+            for off, tag in exp:
+                x = calls[pos] if pos < len(calls) else None
+                want_k = "flush" if method == "flush" else "write"
+                if x is None or x["k"] != want_k or x["s"] != sk:
+                    viol("sink %d (position %d of the documented routing %s, fault plan %s) %s: next call is %s"
+                         % (sk, j, D, scripts, ("was never flushed" if method == "flush" else "was never offered the record") if off == 0 or off is None
+                            else "accepted a part and was not re-offered the rest", None if x is None else (x["k"], x["s"])), e)
+                    return unwinds
+                if x["w"] != wid:
+                    viol("the record was not written to the writer the factory returned for it (sink %d)" % sk, e)
+                    return unwinds
+                if method != "flush":
+                    b = bytes.fromhex(x["hex"])
+                    if b != record[off:]:
+                        viol("sink %d was offered %r, expected %s of the record" % (sk, b.decode("utf-8", "replace")[:200], "the whole" if off == 0 else "exactly the unaccepted rest (offset %d)" % off), e)
+                        return unwinds
+                if x["r"] != tag:
+                    rep.tie("harness:scripted-response", False, "case %s thread %d: sink answered %s, the plan says %s" % (c["id"], t, x["r"], tag), {"case": case_min})
+                    return unwinds
+                pos += 1
+            if res == "unwind":
+                unwound = True
+                break
+        if unwound:
+            if is_direct:
+                unwinds.append([t, e[3]])
+            elif e.top:
+                unwinds.append([t, e.op])
+                aborts = []
+        # ---- and what was handed over is exactly one whole record of this event
+        if is_direct or record is None:
+            continue
+        tx = record.decode("utf-8", "replace")
+        if e.status == "err":
+            if not (tx.startswith("Unable to format the following event. Name: %s;" % e.meta["name"]) and tx.endswith("\n") and tx.count("\n") == 1):
+                viol("format error with log_internal_errors: format-error line is %r" % tx[:120], e)
+            if e.top:
+                aborts = []
+            continue
+        mt = mask(tx)
+        why = check_record(c, e, mt)
+        if why:
+            is_f9 = classify_f9(c, e, mt, aborts)
+            if is_f9:
+                f9_counter[0] += 1
+            rep.violation("a write is not exactly one whole record of its event: " + why,
+                          {"case": case_min, "thread": t, "op": e.op, "marker": e.marker, "write": tx[:400],
+                           "preceding_aborted_events": [{"op": a.op, "marker": a.marker} for a in aborts]},
+                          finding="F9" if is_f9 else None)
+        if e.top and not unwound:
+            aborts = []           # a completed top-level record: the buffer was cleared after it
+    if pos != len(calls):
+        extra = [(x["k"], x["s"]) for x in calls[pos:pos + 6]]
+        viol("one factory call and one write per routed record: %d extra call(s) on the sinks: %s" % (len(calls) - pos, extra), None)
+    return unwinds
+
+
+def check_mutex_exclusion(rep, c, case_min, log):
+    """a Mutex leaf's guard is the writer: the pieces of one record (a sink accepting a part at a time) are contiguous
+    in that sink's global order whatever the other threads do"""
+    by_sink = {}
+    for x in log:
+        if x.get("mutex") and x["k"] == "write":
+            by_sink.setdefault(x["s"], []).append(x)
+    for sk, xs in by_sink.items():
+        owner = None
+        for x in xs:
+            if owner is not None and x["t"] != owner:
+                rep.violation("records of two threads interleave inside a Mutex-guarded writer (sink %d): thread %d wrote while thread %d's record was incomplete" % (sk, x["t"], owner),
+                              {"case": case_min, "sink": sk})
+                return
+            owner = x["t"] if x["r"] == "part" else None
 
 
 def run(ctx):
     rep = Report(ctx)
     rep.rule = ("cases = formatter {full,compact,pretty,json} x options (target, level, thread id/name, file/line, ansi, fake timer, "
-                "log_internal_errors, span events new/enter/exit/close) x writer expressions of depth <= 4 over 1-4 recording sinks "
-                "(max/min level, predicates, tee, or_else, BoxMakeWriter; Rust-typeable only) x programs of span enter/exit/record and "
+                "log_internal_errors, span events: random subsets + a sweep of all 16 subsets x timer on/off) x writer expressions of depth <= 4 "
+                "over 1-4 sinks (max/min level, predicates, tee, or_else, BoxMakeWriter; Rust-typeable only; leaves: recording MakeWriter, "
+                "closure Fn()->W, Mutex<W> accepting a few bytes per write, the real TestWriter) x programs of span enter/exit/record and "
                 "events (explicit/root/contextual parents, 0-6 typed fields) on 1-8 threads x histories with a Debug impl that panics / "
-                "returns Err / emits a nested event at a random field; plus make_writer() without metadata. non-trivial = writer "
-                "expression with >= 1 tee and >= 1 or_else, or >= 2 threads, or a history with an aborted format; distinct = case id")
+                "returns Err / emits a nested event at a random field x sink fault plans (a writer instance's write returns Err / Interrupted / "
+                "Ok(0) / accepts a part / panics: random subsets of a record's sinks, and EVERY subset for 9 tee shapes); plus make_writer() "
+                "without metadata followed by write_all / write / write_vectored / write_fmt / flush. non-trivial = writer expression with >= 1 tee "
+                "and >= 1 or_else, or >= 2 threads, or a history with an aborted format, or a write with a fault plan; distinct = case id")
     rep.trusted_base = [
-        "Coq 8.16.1 kernel + vm_compute", "translators/fmtbuf.py + rsparse.py (shape recognition of on_event; fails closed via gen_unrecognised = [])",
-        "harness h_fmt.rs (recording MakeWriter sinks, dynamic callsites; every combinator and the fmt layer are the real code)",
-        "Python oracle: denote / span bookkeeping / token layout per documented format", "std: default io::Write::write_all (one write call when the sink accepts everything)"]
+        "Coq 8.16.1 kernel + vm_compute", "translators/fmtbuf.py + rsparse.py (shape recognition of on_event, impl_tee!, Tee/EitherWriter/MutexGuardWriter io::Write; fails closed via gen_unrecognised = [])",
+        "harness h_fmt.rs (recording MakeWriter sinks with scripted faults, dynamic callsites; every combinator and the fmt layer are the real code)",
+        "Python oracle: denote / span bookkeeping / token layout per documented format / std's write_all loop",
+        "std: default io::Write::write_all / write_fmt / write_vectored on the recording sinks, Box<dyn Write> forwarding"]
     rep.assumptions = [
-        "atomicity of a single write call is the sink's property (the recording sinks serialise through a mutex)",
+        "atomicity of a single write call is the sink's property (the recording sinks serialise through a mutex); a sink that accepts only a part "
+        "sees ONE write_all = the whole record offered first, then exactly the unaccepted suffixes (std's loop)",
         "the event's scope (C06) and the Debug text of field values are inputs of the record model",
         "ANSI escapes, durations of time.busy/time.idle, ThreadId numbers and the pointer-bearing tail of the 'Unable to format' line are masked",
         "thread names have one width (FmtThreadName pads to the longest name seen by the process)",
-        "field values contain no raw newline in Display/raw-Debug position (the property's exclusion); pretty: containment only; JSON content beyond level/fields is C14"]
+        "field values contain no raw newline in Display/raw-Debug position (the property's exclusion); pretty: containment only; JSON content beyond level/fields is C14",
+        "what on_event reports on stderr for a failed write (log_internal_errors) is not observed; panicking sinks are scripted for event records and direct calls only"]
     # ---- leg B1: translator
     text, unrec = fmtbuf_tr.main(ctx.repo, None)
     gen_if_changed(os.path.join(vlib.COQ, "gen", "Gen_fmtbuf.v"), text)
     rep.tie("translator:Gen_fmtbuf", not unrec, "; ".join(unrec[:4]), unrec[:1] or None)
     policy = re.search(r"clear_policy : policy := (\w+)\.", text).group(1)
+    tee_both = re.search(r"tee_runs_both : bool := (\w+)\.", text).group(1)
     rep.extra["clear_policy_in_tree"] = policy
-    ctx.log("buffer clearing policy in the tree: %s" % policy)
+    rep.extra["tee_runs_both_in_tree"] = tee_both
+    ctx.log("buffer clearing policy in the tree: %s; impl_tee! runs both writers: %s" % (policy, tee_both))
     # ---- leg A
     rep.proof = coq_prove(ctx, "C13", ["theories/Properties/C13.vo", "theories/Fmt/RecordEval.vo"])
     # ---- implementation
@@ -947,6 +1513,7 @@ def run(ctx):
     # ---- cases
     rng = ctx.rng
     cases = []
+    twins = []
     if ctx.replay:
         r = json.load(open(ctx.replay))
         c = r.get("case", r)
@@ -954,23 +1521,45 @@ def run(ctx):
         c.setdefault("id", 1)
         c.setdefault("kind", "replay")
         cases = [c]
+        outer = r.get("case", r)
+        if isinstance(outer, dict) and "twin_case" in outer:      # a TestWriter case is judged against its recording twin
+            tw = outer["twin_case"]
+            tw.setdefault("kind", "testwriter-rec")
+            cases = [tw, c]
+            twins.append((tw, c))
     else:
         cases = load_corpus()
         scale = 4 if ctx.thorough() else 1
-        plan = [("route", 110), ("content", 90), ("abn", 110), ("conc", 36), ("weird", 30)]
+        plan = [("route", 80), ("content", 60), ("abn", 90), ("conc", 36), ("weird", 24)]
         for kind, n in plan:
             for _ in range(n * scale):
-                cases.append(gen_case(rng, 0, kind))
-        for _ in range(10 * scale):
+                c = gen_case(rng, 0, kind)
+                if kind != "weird" and rng.random() < (0.6 if kind == "conc" else 0.35):
+                    add_sink_kinds(rng, c)
+                    if kind == "conc" and rng.random() < 0.6:
+                        assign_faults(rng, c, 0.3)
+                cases.append(c)
+        for _ in range(90 * scale):
+            cases.append(gen_fault_case(rng, 0))
+        for _ in range(scale):
+            cases += gen_teefault_cases(rng)
+        cases += gen_lifecycle_cases(rng)
+        for _ in range(6 * scale):
+            a, b = gen_testwriter_twins(rng)
+            cases += [a, b]
+            twins.append((a, b))
+        for _ in range(8 * scale):
             cases.append(gen_global_case(rng, 0))
     for i, c in enumerate(cases):
         c["id"] = i + 1
         c.setdefault("global", False)
     obs = run_harness(ctx, rep, paths["h_fmt"], cases)
+    ctx.log("harness ran %d cases" % len(cases))
 
     # ---- expectations (python bookkeeping), oracle
     per_case = {}
-    f9_seen = 0
+    f9_counter = [0]
+    CASE_KEYS = ("format", "opts", "nsinks", "sink_kinds", "writer", "callsites", "threads", "faults", "plans", "global")
     for c in cases:
         cid = c["id"]
         o = obs.get(cid)
@@ -982,118 +1571,67 @@ def run(ctx):
         for k in ("max", "min", "filter", "tee", "orelse", "box"):
             if st.get(k):
                 rep.count("wexp:" + k, st[k])
-        for k in c["opts"].get("span_events", []):
-            rep.count("span-event:" + k)
-        for k in ("ansi", "timer", "tid", "tname", "file", "line"):
+        for i in range(c["nsinks"]):
+            if sink_kind(c, i) != "rec":
+                rep.count("leaf:" + sink_kind(c, i).split(":")[0])
+        rep.count("span-events:{%s}%s" % (",".join(c["opts"].get("span_events", [])), "+timer" if c["opts"].get("timer") else ""))
+        for k in ("ansi", "timer", "tid", "tname", "file", "line", "lie"):
             if c["opts"].get(k):
                 rep.count("opt:" + k)
+        for sc_ in (c.get("plans") or {}).values():
+            for x in sc_:
+                for r_ in x:
+                    rep.count("fault:" + ("accept" if isinstance(r_, dict) and r_["ok"] else "zero" if isinstance(r_, dict) else r_))
         if o is None or "fatal" in o:
             rep.tie("harness:case-%d" % cid, False, "no observation / fatal: %s" % ((o or {}).get("fatal", "missing")), {"case": c})
             continue
         rep.evaluations += 1
-        counter = [0]
-        exp_threads = []
-        aborted_any = False
-        for t in range(len(c["threads"])):
-            items = thread_emissions(c, t, counter)
-            exp_threads.append(items)
+        exp_threads = case_items(c)
         per_case[cid] = exp_threads
-        case_min = {k: c[k] for k in ("format", "opts", "nsinks", "writer", "callsites", "threads", "global")}
+        case_min = {k: c[k] for k in CASE_KEYS if k in c}
         if o.get("thread_panics"):
             rep.violation("a thread died inside the fmt layer (uncaught panic outside a field's Debug impl)", {"case": case_min, "threads": o["thread_panics"]})
             continue
-        # expected caught panics: top-level events whose formatting unwinds
-        want_caught = sorted([t, e.op] for t, items in enumerate(exp_threads) for e in items if not isinstance(e, tuple) and e.kind == "event" and e.status == "panic")
-        if sorted(o.get("caught", [])) != want_caught:
-            rep.tie("harness:caught-panics", False, "case %d: caught %s, expected %s" % (cid, sorted(o.get("caught", [])), want_caught), {"case": case_min})
         by_thread = {}
         for call in o["log"]:
             by_thread.setdefault(call["t"], []).append(call)
+        want_caught = []
         for t, items in enumerate(exp_threads):
-            calls = [x for x in by_thread.get(t, [])]
-            pos = 0
-            aborts = []
-            bad = None
-            for e in completion_order(items):
-                if isinstance(e, tuple):
-                    D = denote(c["writer"], None)
-                    want_meta = None
-                    want_text = e[1]
-                    em = None
-                else:
-                    em = e
-                    rep.count("emission:" + e.kind + ("" if e.status == "ok" else "-" + e.status) + ("" if e.top else "-nested"))
-                    if e.status == "panic":
-                        aborted_any = aborted_any or e.top
-                        if e.top:
-                            aborts.append(e)
-                        continue
-                    if e.status == "err" and not c["opts"].get("lie"):
-                        if e.top:
-                            aborts = []           # the non-unwinding path clears
-                        continue
-                    D = denote(c["writer"], e.meta)
-                    want_meta = e.meta
-                    want_text = None
-                seg = calls[pos:pos + 2 * len(D)]
-                pos += 2 * len(D)
-                shape = [(x["k"], x["s"]) for x in seg]
-                if shape != [("make", s) for s in D] + [("write", s) for s in D]:
-                    bad = "calls for one record are %s, the documented routing gives make+write on sinks %s" % (shape, D)
-                elif any(x["meta"] != want_meta for x in seg[:len(D)]):
-                    bad = "make_writer_for received %s, the event's metadata is %s" % ([x["meta"] for x in seg[:len(D)]], want_meta)
-                elif [x["w"] for x in seg[:len(D)]] != [x["w"] for x in seg[len(D):]]:
-                    bad = "the record was not written to the writer the factory returned for it"
-                if bad:
-                    rep.violation("one factory call and one write per routed record: " + bad,
-                                  {"case": case_min, "thread": t, "emission": None if em is None else {"op": em.op, "kind": em.kind, "marker": em.marker}})
-                    break
-                texts = [bytes.fromhex(x["hex"]).decode("utf-8", "replace") for x in seg[len(D):]]
-                if em is None:
-                    if any(tx != want_text for tx in texts):
-                        rep.violation("make_writer() writer did not receive the bytes written to it", {"case": case_min, "thread": t})
-                    continue
-                if em.status == "err":
-                    why = None
-                    for tx in texts:
-                        if not (tx.startswith("Unable to format the following event. Name: %s;" % em.meta["name"]) and tx.endswith("\n") and tx.count("\n") == 1):
-                            why = "format-error line is %r" % tx[:120]
-                    if why:
-                        rep.violation("format error with log_internal_errors: " + why, {"case": case_min, "thread": t, "op": em.op})
-                    if em.top:
-                        aborts = []
-                    continue
-                for tx in texts:
-                    mt = mask(tx)
-                    why = check_record(c, em, mt)
-                    if why:
-                        is_f9 = classify_f9(c, em, mt, aborts)
-                        if is_f9:
-                            f9_seen += 1
-                        rep.violation("a write is not exactly one whole record of its event: " + why,
-                                      {"case": case_min, "thread": t, "op": em.op, "marker": em.marker, "write": tx[:400],
-                                       "preceding_aborted_events": [{"op": a.op, "marker": a.marker} for a in aborts]},
-                                      finding="F9" if is_f9 else None)
-                        break
-                if em.top:
-                    aborts = []           # a completed top-level record: the buffer was cleared after it
-            else:
-                if pos != len(calls):
-                    extra = [(x["k"], x["s"]) for x in calls[pos:pos + 6]]
-                    rep.violation("one factory call and one write per routed record: %d extra call(s) on the sinks: %s" % (len(calls) - pos, extra),
-                                  {"case": case_min, "thread": t})
-        nontriv = (st.get("tee", 0) >= 1 and st.get("orelse", 0) >= 1) or len(c["threads"]) >= 2 or aborted_any
+            want_caught += check_thread(rep, c, case_min, t, items, by_thread.get(t, []), f9_counter)
+        check_mutex_exclusion(rep, c, case_min, o["log"])
+        if sorted(o.get("caught", [])) != sorted(want_caught):
+            rep.tie("harness:caught-panics", False, "case %d: caught %s, expected %s" % (cid, sorted(o.get("caught", [])), sorted(want_caught)), {"case": case_min})
+        aborted_any = any((not isinstance(e, tuple)) and e.top and e.status == "panic" for items in exp_threads for e in items)
+        nontriv = (st.get("tee", 0) >= 1 and st.get("orelse", 0) >= 1) or len(c["threads"]) >= 2 or aborted_any or bool(c.get("plans"))
         if nontriv:
             rep.nontrivial.add(cid)
         if aborted_any:
             rep.count("history-with-aborted-format")
-    rep.extra["f9_shaped_violations"] = f9_seen
+    rep.extra["f9_shaped_violations"] = f9_counter[0]
+
+    # ---- the real TestWriter against its recording twin
+    for a, b in twins:
+        oa, ob = obs.get(a["id"]), obs.get(b["id"])
+        if not oa or not ob or "log" not in oa or "log" not in ob:
+            continue
+        want_records = [bytes.fromhex(x["hex"]).decode("utf-8", "replace") for x in oa["log"] if x["k"] == "write" and x["s"] == 0]
+        got_text = ob.get("stdout", "")
+        rep.count("testwriter-records", len(want_records))
+        if a["format"] == "pretty":      # multi-line records: the same lines overall
+            want = sorted("".join(want_records).split("\n"))
+            okk = sorted(got_text.split("\n")) == want
+        else:                            # one line per record: the same records, each whole
+            want = sorted(want_records)
+            okk = sorted(l + "\n" for l in got_text.split("\n") if l != "") == want and (got_text == "" or got_text.endswith("\n"))
+        if not okk:
+            rep.violation("TestWriter did not print exactly the records routed to it (one whole record per print)",
+                          {"case": {k: b[k] for k in CASE_KEYS if k in b}, "twin_case": {k: a[k] for k in CASE_KEYS if k in a},
+                           "printed": got_text[:600], "recording_twin_received": want_records[:8]})
 
     # ---- model evaluation + correspondence
     requires = ("From Coq Require Import String.\nFrom TV Require Import Fmt.RecordEval.\nLocal Open Scope N_scope.\nLocal Open Scope string_scope.\nLocal Open Scope list_scope.\n"
                 "Definition B := str.\n")
     terms = []
-    index = []     # (cid, t, [segment kinds])
     for c in cases:
         cid = c["id"]
         if cid not in per_case or obs.get(cid) is None:
@@ -1103,32 +1641,29 @@ def run(ctx):
         opts = c["opts"]
         lie = cb_(opts.get("lie"))
         for t in range(len(c["threads"])):
+            segs = segments(per_case[cid][t])
+            parts = []
             if c["format"] in ("full", "compact"):
                 th = "(Thr %s %s)" % (B("wk%02d" % t), B(o["tids"][t]))
                 O = "(Opts %s %s %s %s %s %s %s)" % tuple(cb_(opts.get(k)) for k in ("timer", "level", "tname", "tid", "target", "file", "line"))
                 SC = "(SpanCfg %s %s %s %s)" % tuple(cb_(k in opts.get("span_events", [])) for k in ("new", "enter", "exit", "close"))
-                parts = []
-                for kind, payload in model_ops(c, t):
+                mops = model_ops(c, t)
+                assert len(mops) == len(segs), "segment bookkeeping"
+                for (kind, payload), (_, sp) in zip(mops, segs):
                     if kind == "ops":
                         if payload:
-                            parts.append("eval_thread %s %s %s %s %s %s [%s]" % (lie, "Full" if c["format"] == "full" else "Compact", O, SC, W, th, "; ".join(payload)))
+                            parts.append("eval_thread_f %s %s %s %s %s %s [%s] %s" % (lie, "Full" if c["format"] == "full" else "Compact", O, SC, W, th, "; ".join(payload),
+                                                                                  coq_plans(c, completion_order(sp))))
                     else:
-                        parts.append("eval_direct %s %s" % (W, B(payload)))
-                term = " ++ ".join("(%s)" % p for p in parts) if parts else "(@nil (N*N*N*N))"
+                        parts.append("eval_direct_f %s %s %s %s" % (W, COQ_METHOD[sp[2]], B(sp[1]), coq_plan((c.get("plans") or {}).get(plan_key(sp)))))
             else:
-                parts = []
-                cur = []
-                for it in per_case[cid][t]:
-                    if isinstance(it, tuple):
-                        if cur:
-                            parts.append("eval_opaque %s %s [%s]" % (lie, W, "; ".join(cur)))
-                            cur = []
-                        parts.append("eval_direct %s %s" % (W, B(it[1])))
+                for kind, sp in segs:
+                    if kind == "ems":
+                        if sp:
+                            parts.append("eval_opaque_f %s %s [%s] %s" % (lie, W, "; ".join(opaque_event(it) for it in sp), coq_plans(c, completion_order(sp))))
                     else:
-                        cur.append(opaque_event(it))
-                if cur:
-                    parts.append("eval_opaque %s %s [%s]" % (lie, W, "; ".join(cur)))
-                term = " ++ ".join("(%s)" % p for p in parts) if parts else "(@nil (N*N*N*N))"
+                        parts.append("eval_direct_f %s %s %s %s" % (W, COQ_METHOD[sp[2]], B(sp[1]), coq_plan((c.get("plans") or {}).get(plan_key(sp)))))
+            term = " ++ ".join("(%s)" % p_ for p_ in parts) if parts else "(@nil (N*N*N*N))"
             terms.append(((cid, t), term))
     model = None
     try:
@@ -1147,7 +1682,7 @@ def run(ctx):
             for call in o["log"]:
                 by_thread.setdefault(call["t"], []).append(call)
             for t in range(len(c["threads"])):
-                mv = [tuple(x) for x in model[(cid, t)]]
+                mv = normalise_model(c, [tuple(x) for x in model[(cid, t)]])
                 calls = by_thread.get(t, [])
                 if c["format"] in ("full", "compact"):
                     iv = encode_observed(c, calls)
@@ -1158,9 +1693,8 @@ def run(ctx):
                     k = next((i for i, (a, b) in enumerate(zip(mv, iv)) if a != b), min(len(mv), len(iv)))
                     disagree.append({"case_id": cid, "thread": t, "format": c["format"], "first_diff_index": k,
                                      "model": mv[k:k + 2], "impl": iv[k:k + 2],
-                                     "impl_call": (calls[k] if k < len(calls) else None),
-                                     "case": {kk: c[kk] for kk in ("format", "opts", "nsinks", "writer", "callsites", "threads", "global")}})
-        rep.tie("correspondence:per-thread sink call logs (bytes hashed for full/compact, chunk structure for pretty/json)",
+                                     "case": {kk: c[kk] for kk in CASE_KEYS if kk in c}})
+        rep.tie("correspondence:per-thread sink call logs under fault plans (bytes hashed for full/compact, chunk structure for pretty/json)",
                 not disagree, "%d of %d thread logs disagree" % (len(disagree), ncmp), disagree[:1] or None)
         rep.traces_validated = ncmp
         if disagree:
@@ -1209,28 +1743,38 @@ def opaque_observed(case, items, calls):
     """pretty/json: every observed call in the model's encoding, a write being mapped to the chunk structure the
     model uses (2k+1 = whole record of emission k, 2k = what aborted emission k left behind) via the markers"""
     order = completion_order(items)
-    written = []
+    written = []          # one entry per expected write call on an observable sink: the emission / direct op it serves
     aborts_before = {}
     aborts = []
     for e in order:
-        if isinstance(e, tuple):
-            written += [e] * len(denote(case["writer"], None))
-            continue
-        if e.status == "panic":
-            if e.top:
-                aborts.append(e)
-            continue
-        if e.status == "err" and not case["opts"].get("lie"):
-            if e.top:
+        D = routed(case, e)
+        if D is None:
+            if e.status == "panic":
+                if e.top:
+                    aborts.append(e)
+            elif e.top:
                 aborts = []
             continue
-        aborts_before[e.uid] = list(aborts)
-        written += [e] * len(denote(case["writer"], e.meta))
-        if e.top:
+        is_direct = isinstance(e, tuple)
+        if not is_direct:
+            aborts_before[e.uid] = list(aborts)
+        scripts = (case.get("plans") or {}).get(plan_key(e)) or [[] for _ in D]
+        method = e[2] if is_direct else "write_all"
+        n = len(e[1].encode()) if is_direct else 10 ** 9
+        for j, sk in enumerate(D):
+            if sink_kind(case, sk) == "test":
+                continue
+            sc = [] if sink_kind(case, sk).startswith("mutex") else (scripts[j] if j < len(scripts) else [])
+            exp, res = sim_calls(sc, method, n)
+            if method != "flush":
+                written += [e] * len(exp)
+            if res == "unwind":
+                break
+        if not is_direct and e.top:
             aborts = []
     res = []
     wi = 0
-    for c in calls:
+    for c in normalise_calls(case, calls):
         if c["k"] == "make":
             if c["meta"] is None:
                 res.append((c["s"], 0, 0, 0))
@@ -1238,16 +1782,15 @@ def opaque_observed(case, items, calls):
                 m = c["meta"]
                 res.append((c["s"], 1, 2 * m["level"] + (1 if m["span"] else 0), enc_meta(m)))
         elif c["k"] == "write":
-            txt = mask(bytes.fromhex(c["hex"]).decode("utf-8", "replace"))
+            raw = bytes.fromhex(c["hex"])
+            txt = mask(raw.decode("utf-8", "replace"))
             e = written[wi] if wi < len(written) else None
             wi += 1
             key = (-1, -1)
             if e is None:
                 pass
             elif isinstance(e, tuple):
-                bb = e[1].encode()
-                if txt == e[1]:
-                    key = (len(bb), py_hash(bb))
+                key = (len(raw), py_hash(raw))
             elif e.status == "err":
                 if txt.startswith("Unable to format the following event."):
                     key = chunk_key((2 * e.uid + 1,))
@@ -1255,7 +1798,7 @@ def opaque_observed(case, items, calls):
                 key = chunk_key((2 * e.uid + 1,))
             elif classify_f9(case, e, txt, aborts_before.get(e.uid, [])):
                 key = chunk_key(tuple(2 * a.uid for a in aborts_before[e.uid]) + (2 * e.uid + 1,))
-            res.append((c["s"], 2) + key)
+            res.append((c["s"], 2 + RCODE[c.get("r", "ok")]) + key)
         else:
-            res.append((c["s"], 3, 0, 0))
+            res.append((c["s"], 3, RCODE[c.get("r", "ok")], 0))
     return res
